@@ -600,8 +600,104 @@ def handoff_case(ctx, case):
     ctx.label('handoff')
 
 
+def broadcast_case(ctx, case):
+    """One packet object handed to two connections of the same protocol
+    version (a broadcast): each connection sends it exactly once as a frame
+    that is well-formed under ITS OWN compression setting, also when the
+    object is still queued on the first connection (whose networking thread
+    is parked in a listener) while the second one takes and writes it.
+    case {version, ca, cb, n, forced_b: bool}"""
+    import threading
+    import time
+    from minecraft.networking.packets import Packet, serverbound as sb
+    version = case['version']
+    ctx.ev()
+    spec = {}
+    for k in 'ab':
+        comp = case.get('c' + k)
+        spec[k] = servers.Server({
+            'version': version,
+            'login': ([('compress', comp)] if comp is not None else []) +
+            [('success',)],
+            'play': {'bursts': [[('raw', 0x7B, b'go')]] if k == 'a' else [],
+                     'mode': 'all', 'end': 'silent'}})
+    world = vnet.World(servers=[spec['a'], spec['b']])
+    world.block_guard = 5.0
+    parked, release = threading.Event(), threading.Event()
+    conns, obs = {}, {}
+    texts = ['shared-%d-' % i + 'x' * (i * 37 % 90) for i in range(case['n'])]
+    with vnet.installed(world):
+        try:
+            for k in 'ab':
+                conns[k], obs[k] = servers.make_connection(
+                    world, allowed_versions={version})
+
+            def listener(p):
+                if p.id == 0x7B and not parked.is_set():
+                    parked.set()
+                    release.wait(20)
+            conns['a'].register_packet_listener(listener, Packet)
+            conns['a'].connect()
+            for n_ in range(3000):
+                if parked.wait(0.01) or obs['a'].exceptions:
+                    break
+            if not parked.is_set():
+                release.set()
+                world.kill_all()
+                if obs['a'].exceptions:
+                    ctx.fail('broadcast', 'B0-session-failed', case,
+                             repr(obs['a'].exceptions[0][0]))
+                    return
+                from vlib.core import HarnessError
+                raise HarnessError('C12 broadcast: listener never ran')
+            conns['b'].connect()
+            for _ in range(5000):
+                if spec['b'].play_started or obs['b'].exceptions:
+                    break
+                time.sleep(0.001)
+            world.wait_idle(spec['b'].link, conns['b'])
+            shared = [sb.play.ChatPacket(message=t) for t in texts]
+            for pkt in shared:
+                conns['a'].write_packet(pkt)        # stays queued (parked)
+                conns['b'].write_packet(pkt, force=bool(case.get('forced_b')))
+            okb = world.wait_idle(spec['b'].link, conns['b'], timeout=30.0)
+            release.set()
+            oka = world.wait_idle(spec['a'].link, conns['a'], timeout=30.0)
+            excs = [repr(e[0]) for k in 'ab' for e in obs[k].exceptions]
+            for k in 'ab':
+                conns[k].disconnect()
+            state = world.settle(timeout=30.0)
+        except Exception as e:
+            release.set()
+            if type(e).__name__ == 'HarnessError':
+                world.kill_all()
+                raise
+            ctx.fail('broadcast', 'B-raised', case, exc=e)
+            world.kill_all()
+            return
+    errs = {k: spec[k].errors[:2] for k in 'ab'}
+    if not (oka and okb) or state != 'done' or errs['a'] or errs['b'] or excs:
+        ctx.fail('broadcast', 'B1-malformed-stream', case,
+                 (oka, okb, state, errs, excs[:2]))
+        world.kill_all()
+        return
+    chat_id = servers.packet_info(version, 'sb_chat')[0]
+    for k in 'ab':
+        try:
+            got = [servers.decode(version, 'sb_chat', pl)['message']
+                   for pid, pl in spec[k].other_play_frames if pid == chat_id]
+        except Exception as e:
+            got = ['undecodable: %r' % (e,)]
+        if got != texts:
+            ctx.fail('broadcast', 'B2-once-each-in-order', dict(case, side=k),
+                     [g[:12] for g in got[:12]], [t[:12] for t in texts[:12]])
+            return
+    ctx.nt('broadcast', repr(case))
+    ctx.label('broadcast_one_object_two_connections')
+
+
 COMPONENTS = {'schedule': schedule_case, 'route': route_case,
-              'handoff': handoff_case}
+              'handoff': handoff_case, 'broadcast': broadcast_case}
 
 
 SMALL = [
@@ -757,9 +853,25 @@ def t_handoff(ctx):
                         '3 protocols x 4 sizes x 2 orders')
 
 
+def t_broadcast(ctx):
+    k = 0
+    for v in (757, 340, 47):
+        for ca, cb_ in ((None, 0), (None, 64), (64, None), (0, 256),
+                        (256, 16), (None, None)):
+            for n in (1, 4):
+                k += 1
+                broadcast_case(ctx, {'version': v, 'ca': ca, 'cb': cb_,
+                                     'n': n, 'forced_b': k % 2 == 0})
+    ctx.sample({'version': 340, 'ca': None, 'cb': 64, 'n': 1,
+                'forced_b': False}, 'broadcast')
+    ctx.exhaustive_done('one packet object on two connections: 3 protocols '
+                        'x 6 compression pairs x 2 sizes')
+
+
 def tasks(tier):
     q = tier == 'quick'
-    tl = [('farewell', t_farewell, {}), ('handoff', t_handoff, {})]
+    tl = [('farewell', t_farewell, {}), ('handoff', t_handoff, {}),
+          ('broadcast', t_broadcast, {})]
     nsh = 2 if q else 8
     for i in range(len(SMALL)):
         # (the two-thread reconnect scenarios are long: more shards)
